@@ -388,10 +388,10 @@ func checkFileAPIs(c *Ctx, rule string, f *FC) {
 	scan(f.Prog)
 	scan(sysProg)
 	allowed := map[site]bool{
-		{"sys.WriteFile", "os.WriteFile"}:                             true,
-		{ir.ShortKey(f.Path + ".transpileOne"), "sys.WriteFile"}:      true,
+		{"sys.WriteFile", "os.WriteFile"}:                              true,
+		{ir.ShortKey(f.Path + ".transpileOne"), "sys.WriteFile"}:       true,
 		{"github.com/karino2/folang/fc.transpileOne", "sys.WriteFile"}: true,
-		{"fc.transpileOne", "sys.WriteFile"}:                          true,
+		{"fc.transpileOne", "sys.WriteFile"}:                           true,
 	}
 	n := 0
 	for _, s := range sites {
